@@ -150,6 +150,23 @@ def build_inputs(ctx):
               "[x for x in y] = 3", "[a] !> f() = 3", "return;", "fn() return;", "do 1; return; end", "1e5", "- -3", "not not x", "a is not foo", "a is foo",
               "m[k, d] = v", "require X import [a, a as b]", "1 + a = 2", "'doc' def f() 1", "if a then b if c then d else e", "//(?a)(?u)x//", "//a{99999999999999999999}//"]:
         add(s, "edge")
+    # string literals whose content is the text of an operator / keyword / bracket (the parser must go by token TYPE), after an operand
+    for v in gensyntax.OPERATORS + gensyntax.INTERPUNCTION + gensyntax.KEYWORDS[:12]:
+        for q in ("'", '"'):
+            if q in v:
+                continue
+            lit_ = q + v + q
+            for tmpl in ("1 {} 2", "x {} y", "f({})", "{} 1", "[1 {} 2]", "a {} {} b", "def x = 1 {}", "{}"):
+                add(tmpl.format(*([lit_] * tmpl.count("{}"))), "type-confusion")
+    # escape forms in both quote styles: \x followed by every pair from a small alphabet
+    for q in ("'", '"'):
+        for c1 in "-+ 0aAgG_xX\\" + q:
+            for c2 in "-1fFgz " + q:
+                add(q + "a\\x" + c1 + c2 + "b" + q, "escape-cover")
+                add(q + "\\x" + c1 + c2, "escape-cover")
+        for c in "nrtx\\0abfuU'\"#{} \n":
+            add(q + "\\" + c + q, "escape-cover")
+            add(q + "z\\" + c, "escape-cover")
     # nesting up to depth 40
     for d in (1, 5, 10, 20, 30, 40):
         for _ in range(3):
@@ -160,7 +177,8 @@ def build_inputs(ctx):
 def run(ctx):
     inputs = build_inputs(ctx)
     ctx.rule = ("generated full-syntax programs with every character prefix, every token prefix and single-token deletion/insertion/"
-                "substitution, random token sequences over the full token alphabet, raw character noise, exhaustive short strings over "
+                "substitution, random token sequences over the full token alphabet, string literals spelling operators / keywords / brackets after an operand, "
+                "escape forms in both quote styles, raw character noise, exhaustive short strings over "
                 "the scanner's alphabet, literal edge forms, nesting to depth 40; every input parsed twice (determinism) under a 2 s bound; "
                 "non-trivial = the text has >= 2 tokens or ends inside a token")
     srcs = list(inputs.keys())
@@ -178,7 +196,7 @@ def run(ctx):
     for s, r in zip(srcs, resp):
         outs, bad = results[s]
         kind = inputs[s]
-        ctx.seen(s, nontrivial=len(s.split()) >= 2 or kind in ("char-prefix", "char-noise", "transition-cover", "edge"))
+        ctx.seen(s, nontrivial=len(s.split()) >= 2 or kind in ("char-prefix", "char-noise", "transition-cover", "edge", "type-confusion", "escape-cover"))
         ctx.count("inputs_" + kind)
         a, b = outs
         rp = {"op": "parse", "src": s, "kind": kind}
